@@ -63,7 +63,7 @@ def normalise_const(v):
 
 
 def is_formula(v):
-    return (isinstance(v, str) and v.startswith('=')) or (isinstance(v, dict) and '$arr' in v)
+    return (isinstance(v, str) and v.startswith('=')) or (isinstance(v, dict) and ('$arr' in v or '$table' in v))
 
 
 def same_outcome(a, b):
@@ -170,7 +170,7 @@ def classify_spec(spec):
         for a, v in sh['cells'].items():
             if is_formula(v):
                 tags.add('formula')
-                t = v if isinstance(v, str) else v['$arr'][1]
+                t = v if isinstance(v, str) else v['$arr'][1] if '$arr' in v else '=TABLE(' + v['$table'][1] + ')'
                 vd = c05.verdict(t if t.startswith('=') else '=' + t)[0]
                 tags.add('formula:' + vd)
             elif isinstance(v, str):
@@ -388,6 +388,16 @@ def family_model(name, d):
         cells['C1'] = '=0.' + '1' * (400 * d)
     elif name == 'long-string':
         cells['C1'] = '="' + 'ab' * (500 * d) + '"'
+    elif name == 'compare-chain':
+        cells['C1'] = '=1' + ''.join(['<2', '=TRUE', '<>3', '>=0', '<=A1', '>A2'][i % 6] for i in range(5 * d))
+    elif name == 'percent-run':
+        cells['C1'] = '=A1' + '%' * (5 * d)
+    elif name == 'compare-in-args':
+        cells['C1'] = '=SUM(' + ','.join('(A1<%d)=(A2>%d)' % (i, i) for i in range(3 * d)) + ')+IF(' + 'A1<2=TRUE' + '=TRUE' * (3 * d) + ',1,2)'
+    elif name == 'criterion-digits':
+        cells['C1'] = '=COUNTIFS(A1:A2,">' + '9' * (100 * d) + '")+SUMIF(A1:A2,"<' + '1' * (100 * d) + '.5")'
+    elif name == 'criterion-exponent':
+        cells['C1'] = f'=COUNTIFS(A1:A2,">1e{10 * d}")+SUMIF(A1:A2,"<>2.5e{10 * d}")+COUNTIFS(A1:A2,"=1e-{10 * d}")+COUNTIFS(A1:A2,"<"&1e{min(10 * d, 300)})'
     elif name == 'wide-area':
         cells['C1'] = f'=SUM(A1:{wbk.a1(20 * d, 3)})'
     else:
@@ -397,13 +407,15 @@ def family_model(name, d):
 
 FAMILIES = {'parens': 40, 'parens-sum': 40, 'nested-sum': 30, 'nested-if': 24, 'nested-mixed': 28, 'op-chain': 16, 'cmp-amp-chain': 16, 'unary-chain': 16,
             'args': 16, 'ifs-args': 12, 'chain-forward': 16, 'chain-backward': 16, 'long-int-literal': 16, 'long-frac-literal': 8, 'long-string': 8,
-            'wide-area': 10}
+            'wide-area': 10, 'compare-chain': 12, 'percent-run': 12, 'compare-in-args': 8, 'criterion-digits': 8, 'criterion-exponent': 12}
 WORK_CAP = 6_000_000
 # sizes far beyond the unit steps (only the outcome class is judged there: python's compiler has limits of its own - about 200
 # nested brackets - that a translation must respect or reject)
 FAR = {'parens': [64, 65, 100, 199, 200, 201, 250, 400], 'parens-sum': [64, 65, 100, 199, 200, 201, 250], 'nested-sum': [64, 65, 100, 200],
        'nested-if': [64, 65, 100], 'nested-mixed': [64, 65, 120], 'unary-chain': [13, 14, 40, 41, 50, 60], 'op-chain': [40, 41, 45, 60, 100],
-       'cmp-amp-chain': [40, 41, 45, 60, 100], 'args': [25, 40, 100], 'ifs-args': [40, 45], 'chain-backward': [30, 60], 'chain-forward': [60, 200]}
+       'cmp-amp-chain': [40, 41, 45, 60, 100], 'args': [25, 40, 100], 'ifs-args': [40, 45], 'chain-backward': [30, 60], 'chain-forward': [60, 200],
+       'compare-chain': [25, 37, 38, 39, 40, 50, 100, 400], 'percent-run': [25, 37, 38, 39, 40, 50, 100, 400], 'compare-in-args': [20, 62, 63, 64, 65, 70, 100],
+       'criterion-digits': [30, 42, 43, 44, 45, 100], 'criterion-exponent': [30, 31, 32, 40, 100]}
 
 
 class WorkCounter:
@@ -623,7 +635,7 @@ def wb_strategy(adversarial):
     valid_formula = st.tuples(seed, rnd).map(lambda t: c05.render_tokens(c05.ast_tokens(t[0]), [t[1].choice(['', '', ' ']) for _ in range(80)]))
     arrayf = st.sampled_from(['=1+2', '=SUM(A1:A2)', '=A1*2']).map(lambda f: {'$arr': ['H1:H1', f]})
     text_formula = text.filter(lambda s: '"' not in s).map(lambda s: '="' + s + '"')
-    bad = st.one_of(st.sampled_from(UNSUPPORTED),
+    bad = st.one_of(st.sampled_from(UNSUPPORTED), st.sampled_from([{'$table': ['H1:H2', 'A1']}, {'$table': ['B2:C3', 'D1']}]),
                     st.tuples(seed, rnd).map(lambda t: c05.render_tokens(c05.mutate_tokens(c05.ast_tokens(t[0]), t[1]))),
                     st.tuples(seed, rnd).map(lambda t: c05.mutate_chars(c05.render_tokens(c05.ast_tokens(t[0])), t[1])),
                     rnd.map(lambda r: c05.soup_items(r, 1)[0]['t']),
